@@ -5,8 +5,10 @@
 import HealSparse.Lemmas.Core
 import HealSparse.Lemmas.Coverage
 import HealSparse.Model.Valid
+import HealSparse.Model.SubMap
 import HealSparse.Props.C04
 import HealSparse.Lemmas.Valid
+import HealSparse.Lemmas.SubMap
 namespace HS
 namespace C02
 
@@ -191,6 +193,17 @@ theorem cache_coherent (vc : VCfg V) (s : State V) (ops : List (CacheOp V)) :
         rcases hsn with rfl | hsn
         · rfl
         · exact ih _ (Or.inr hm) sn hsn
+
+/-- `get_single_covpix_map(k)` (the per-coverage-pixel sub-maps of `get_covpix_maps`): a
+    well-formed map that is exactly the restriction of the map to coverage pixel `k` — same
+    values inside it, the sentinel elsewhere, covered iff the source covers `k` — so the valid
+    pixels of the sub-maps partition the valid set. -/
+theorem singleCovpix_spec (c : Cfg) (vc : VCfg V) (s : State V) (k : Nat) (h : Inv c vc s) (hk : k < c.ncov) :
+    Inv c vc (singleCovpixMap c vc s k) ∧
+    (∀ p, p < c.npix → abs c vc (singleCovpixMap c vc s k) p
+        = if p >>> c.shift = k then abs c vc s p else vc.sentinel) ∧
+    (∀ j, j < c.ncov → covered c (singleCovpixMap c vc s k) j = (decide (j = k) && covered c s k)) := by
+  exact singleCovpixMap_spec' c vc s k h hk
 
 /-- non-vacuity: shuffled block order, one valid pixel per block -/
 example : validPixels (V := Nat) ⟨3, 1⟩ ⟨0, fun x => x != 0⟩ ⟨#[4, -2, -2], #[0, 0, 7, 0, 0, 9]⟩
